@@ -56,6 +56,10 @@ class Builder:
                 self.env[name] = let(cls, self.world[domkey], name=name)
             elif style == "from":
                 self.env[name] = cls(From(self.world[domkey]))
+            elif style == "let1":                      # the domain is a single object, not a collection
+                self.env[name] = let(cls, self.world[domkey][0])
+            elif style == "from1":
+                self.env[name] = cls(From(self.world[domkey][0]))
             elif style == "sharedfrom":                # one From object shared by every variable over this domain
                 f = self.froms.setdefault(domkey, From(self.world[domkey]))
                 self.env[name] = cls(f)
@@ -392,6 +396,8 @@ def up_decl(v):
         "let": f"{name} = let({clsname}, {domkey})",
         "letn": f"{name} = let({clsname}, {domkey}, name={name!r})",
         "from": f"{name} = {clsname}(From({domkey}))",
+        "let1": f"{name} = let({clsname}, {domkey}[0])",
+        "from1": f"{name} = {clsname}(From({domkey}[0]))",
         "sharedfrom": f"{name} = {clsname}(from_{domkey})   # from_{domkey} = From({domkey}), one shared object",
         "bare": f"{name} = let({clsname})",
         "barecall": f"{name} = {clsname}()",
